@@ -1,16 +1,30 @@
 // Package c05 drives the real verifier.Verify with a scripted revocation validator over
 // all result vectors in {OK, NonRevokable, Unknown, Revoked}^n for chains of length 1..4,
-// both validator interfaces, both signing schemes and every action of the revocation type.
+// both validator interfaces, both signing schemes and every action of the revocation type -
+// the action being written the way a user writes it: a named level (strict, permissive, audit,
+// skip) with or without an override for revocation (relaxing or tightening), alone or next to
+// overrides of other types; validator-level errors of every kind (plain, wrapping context /
+// deadline / timeout errors, typed revocation errors, empty messages, typed nil pointers) under
+// live, cancelled and expired caller contexts.
 package c05
 
 import (
 	"context"
 	"crypto/x509"
+	"encoding/json"
 	"errors"
 	"fmt"
+	"io"
+	"net"
+	"net/url"
+	"os"
+	"sort"
 	"strings"
+	"sync"
 	"time"
 
+	"github.com/notaryproject/notation-core-go/revocation"
+	revocsp "github.com/notaryproject/notation-core-go/revocation/ocsp"
 	revresult "github.com/notaryproject/notation-core-go/revocation/result"
 	"github.com/notaryproject/notation-core-go/signature"
 	"github.com/notaryproject/notation-go"
@@ -24,12 +38,23 @@ import (
 )
 
 type Input struct {
-	Vec              []string `json:"vec"`
-	ChainLen         int      `json:"chainLen"`
-	Scheme           string   `json:"scheme"`
-	Iface            string   `json:"iface"`
-	Action           string   `json:"action"`
-	ValidatorError   bool     `json:"validatorError"`
+	Vec      []string `json:"vec"`
+	ChainLen int      `json:"chainLen"`
+	Scheme   string   `json:"scheme"`
+	Iface    string   `json:"iface"`
+	// the trust policy statement as a user writes it: a named level, optionally an override for the
+	// revocation type (null = none), optionally overrides of other types ("expiry=log", ...; ignored by
+	// the model: they must not change what happens to revocation)
+	Level          string   `json:"level"`
+	RevOverride    *string  `json:"revOverride"`
+	OtherOverrides []string `json:"otherOverrides"`
+	// "code": the document is built in Go; "json": it is parsed from the JSON text a user writes (ignored by the model)
+	PolicyForm     string `json:"policyForm"`
+	ValidatorError bool   `json:"validatorError"`
+	// what error the validator returns (see validatorErr; ignored by the model: every error fails the validation)
+	ErrorKind string `json:"errorKind"`
+	// the context handed to Verify: "background", "live" (deadline far away), "cancelled", "expired" (ignored by the model)
+	CallerCtx        string   `json:"callerCtx"`
 	Methods          []string `json:"methods"`
 	ServerErrors     []bool   `json:"serverErrors"`
 	ErrorWithResults bool     `json:"errorWithResults"`
@@ -49,13 +74,15 @@ type Input struct {
 }
 
 type Obs struct {
-	Outcome     string  `json:"outcome"`
-	Named       *int    `json:"named"`
-	Accepted    bool    `json:"accepted"`
-	Calls       int     `json:"calls"`
-	ChainLen    *int    `json:"chainLen"`
-	SigningTime *bool   `json:"signingTime"`
-	UsedIface   *string `json:"usedIface"`
+	Outcome  string `json:"outcome"`
+	Named    *int   `json:"named"`
+	Accepted bool   `json:"accepted"`
+	// the action the revocation ValidationResult carries
+	ResultAction *string `json:"resultAction"`
+	Calls        int     `json:"calls"`
+	ChainLen     *int    `json:"chainLen"`
+	SigningTime  *bool   `json:"signingTime"`
+	UsedIface    *string `json:"usedIface"`
 }
 
 var target = ocispec.Descriptor{MediaType: "application/vnd.oci.image.manifest.v1+json", Digest: digest.FromString("c05 artifact"), Size: 12}
@@ -73,7 +100,235 @@ type world struct {
 type liveVerifier struct {
 	v     notation.Verifier
 	store *common.MemStore
-	rev   *common.ScriptedRevocation
+	rev   *scripted
+}
+
+// scripted implements revocation.Validator and (through clientView) the deprecated
+// revocation.Revocation; the script sees the context it was handed (nil for the deprecated client,
+// which has none)
+type scripted struct {
+	mu      sync.Mutex
+	Results func(ctx context.Context, chain []*x509.Certificate) ([]*revresult.CertRevocationResult, error)
+	Calls   []common.RevCall
+}
+
+func (r *scripted) ValidateContext(ctx context.Context, opts revocation.ValidateContextOptions) ([]*revresult.CertRevocationResult, error) {
+	r.mu.Lock()
+	r.Calls = append(r.Calls, common.RevCall{ChainLen: len(opts.CertChain), Chain: opts.CertChain,
+		HasSigningTime: !opts.AuthenticSigningTime.IsZero(), SigningTime: opts.AuthenticSigningTime, Interface: "validator"})
+	r.mu.Unlock()
+	return r.Results(ctx, opts.CertChain)
+}
+
+type clientView struct{ r *scripted }
+
+func (c clientView) Validate(certChain []*x509.Certificate, signingTime time.Time) ([]*revresult.CertRevocationResult, error) {
+	c.r.mu.Lock()
+	c.r.Calls = append(c.r.Calls, common.RevCall{ChainLen: len(certChain), Chain: certChain,
+		HasSigningTime: !signingTime.IsZero(), SigningTime: signingTime, Interface: "client"})
+	c.r.mu.Unlock()
+	return c.r.Results(nil, certChain)
+}
+
+/* ---- the kinds of validator-level errors ---- */
+
+// what net/http reports when Client.Timeout fires: matches context.DeadlineExceeded through an Is
+// method (no wrapping), and is a net.Error with Timeout() == true
+type clientTimeoutErr struct{}
+
+func (clientTimeoutErr) Error() string   { return "Client.Timeout exceeded while awaiting headers" }
+func (clientTimeoutErr) Is(t error) bool { return t == context.DeadlineExceeded }
+func (clientTimeoutErr) Timeout() bool   { return true }
+func (clientTimeoutErr) Temporary() bool { return true }
+
+type emptyMessageErr struct{}
+
+func (emptyMessageErr) Error() string { return "" }
+
+type pointerErr struct{ msg string }
+
+func (e *pointerErr) Error() string {
+	if e == nil {
+		return "<nil>"
+	}
+	return e.msg
+}
+
+// ErrorKinds lists every kind validatorErr knows.
+var ErrorKinds = []string{"plain", "emptyMessage", "typedNilPointer",
+	"ctxCanceled", "ctxDeadline", "wrapCanceled", "wrapDeadline", "joinCanceled", "joinDeadline",
+	"ownTimeout", "ownCancel", "ownCancelCause", "handedCtxErr",
+	"clientTimeout", "urlErrorDeadline", "osDeadline", "netOpTimeout", "dnsTimeout", "eof",
+	"ocspTimeout", "ocspNoServer", "ocspGeneric", "ocspRevoked", "ocspUnknownStatus", "invalidChain"}
+
+// validatorErr builds the (always non-nil) validator-level error of a kind. ctx is the context the
+// validator was handed (nil through the deprecated client).
+func validatorErr(kind string, ctx context.Context) error {
+	parent := ctx
+	if parent == nil {
+		parent = context.Background()
+	}
+	switch kind {
+	case "", "plain":
+		return errors.New("validator failure")
+	case "emptyMessage":
+		return emptyMessageErr{}
+	case "typedNilPointer":
+		var e *pointerErr
+		return e // a non-nil error value holding a nil pointer
+	case "ctxCanceled":
+		return context.Canceled
+	case "ctxDeadline":
+		return context.DeadlineExceeded
+	case "wrapCanceled":
+		return fmt.Errorf("request to revocation service abandoned: %w", context.Canceled)
+	case "wrapDeadline":
+		return fmt.Errorf("request to revocation service: %w", context.DeadlineExceeded)
+	case "joinCanceled":
+		return errors.Join(errors.New("responder 1: 503"), context.Canceled)
+	case "joinDeadline":
+		return errors.Join(context.DeadlineExceeded, errors.New("responder 2: connection refused"))
+	case "ownTimeout":
+		// the validator bounds its own work; its deadline fires, not the caller's
+		c2, cancel := context.WithTimeout(parent, time.Nanosecond)
+		defer cancel()
+		<-c2.Done()
+		return fmt.Errorf("revocation service did not answer: %w", c2.Err())
+	case "ownCancel":
+		// the validator cancels its internal fan-out after the first failure
+		c2, cancel := context.WithCancel(parent)
+		cancel()
+		<-c2.Done()
+		return fmt.Errorf("fan-out stopped: %w", c2.Err())
+	case "ownCancelCause":
+		c2, cancel := context.WithCancelCause(parent)
+		cancel(errors.New("first responder failed"))
+		<-c2.Done()
+		return errors.Join(c2.Err(), context.Cause(c2))
+	case "handedCtxErr":
+		// the error of the context the validator was handed, when that one is done
+		if e := parent.Err(); e != nil {
+			return e
+		}
+		return fmt.Errorf("derived context: %w", context.Canceled)
+	case "clientTimeout":
+		return &url.Error{Op: "Post", URL: "http://ocsp.example/", Err: clientTimeoutErr{}}
+	case "urlErrorDeadline":
+		return &url.Error{Op: "Get", URL: "http://crl.example/ca.crl", Err: context.DeadlineExceeded}
+	case "osDeadline":
+		return fmt.Errorf("read tcp: %w", os.ErrDeadlineExceeded)
+	case "netOpTimeout":
+		return &net.OpError{Op: "dial", Net: "tcp", Err: clientTimeoutErr{}}
+	case "dnsTimeout":
+		return &net.DNSError{Err: "i/o timeout", Name: "ocsp.example", IsTimeout: true, IsTemporary: true}
+	case "eof":
+		return fmt.Errorf("reading OCSP response: %w", io.ErrUnexpectedEOF)
+	case "ocspTimeout":
+		return revocsp.TimeoutError{}
+	case "ocspNoServer":
+		return revocsp.NoServerError{}
+	case "ocspGeneric":
+		return revocsp.GenericError{Err: errors.New("malformed OCSP response")}
+	case "ocspRevoked":
+		return revocsp.RevokedError{}
+	case "ocspUnknownStatus":
+		return revocsp.UnknownStatusError{}
+	case "invalidChain":
+		return revresult.InvalidChainError{Err: errors.New("chain out of order")}
+	}
+	panic("c05: unknown error kind " + kind)
+}
+
+/* ---- the trust policy statement ---- */
+
+// EffectiveAction is the generator's own reading of a statement (used to spread the cases, never to judge).
+func EffectiveAction(level string, revOverride *string) string {
+	if level == "skip" {
+		return "skip"
+	}
+	if revOverride != nil {
+		return *revOverride
+	}
+	if level == "strict" {
+		return "enforce"
+	}
+	return "log"
+}
+
+// overridesOf puts the statement's overrides together
+func overridesOf(in Input) map[trustpolicy.ValidationType]trustpolicy.ValidationAction {
+	ov := map[trustpolicy.ValidationType]trustpolicy.ValidationAction{}
+	if in.RevOverride != nil {
+		ov[trustpolicy.TypeRevocation] = trustpolicy.ValidationAction(*in.RevOverride)
+	}
+	for _, o := range in.OtherOverrides {
+		t, a, ok := strings.Cut(o, "=")
+		if !ok || t == "revocation" {
+			panic("c05: bad override " + o)
+		}
+		ov[trustpolicy.ValidationType(t)] = trustpolicy.ValidationAction(a)
+	}
+	if len(ov) == 0 {
+		return nil
+	}
+	return ov
+}
+
+// policyDoc builds the trust policy document of a case: in code, or from the JSON text of the statement
+func policyDoc(in Input, storeType string) *trustpolicy.OCIDocument {
+	ov := overridesOf(in)
+	if in.PolicyForm != "json" {
+		p := trustpolicy.OCITrustPolicy{Name: "c05", RegistryScopes: []string{"*"},
+			SignatureVerification: trustpolicy.SignatureVerification{VerificationLevel: in.Level, Override: ov}}
+		if in.Level != "skip" {
+			// (a statement that skips verification must not name trust stores or identities)
+			p.TrustStores, p.TrustedIdentities = []string{storeType + ":c05"}, []string{"*"}
+		}
+		return &trustpolicy.OCIDocument{Version: "1.0", TrustPolicies: []trustpolicy.OCITrustPolicy{p}}
+	}
+	sv := fmt.Sprintf(`{"level":%q`, in.Level)
+	if ov != nil {
+		var keys []string
+		for k := range ov {
+			keys = append(keys, string(k))
+		}
+		sort.Strings(keys)
+		var parts []string
+		for _, k := range keys {
+			parts = append(parts, fmt.Sprintf("%q:%q", k, string(ov[trustpolicy.ValidationType(k)])))
+		}
+		sv += `,"override":{` + strings.Join(parts, ",") + `}`
+	}
+	sv += "}"
+	trust := fmt.Sprintf(`,"trustStores":[%q],"trustedIdentities":["*"]`, storeType+":c05")
+	if in.Level == "skip" {
+		trust = ""
+	}
+	text := fmt.Sprintf(`{"version":"1.0","trustPolicies":[{"name":"c05","registryScopes":["*"],"signatureVerification":%s%s}]}`, sv, trust)
+	doc := &trustpolicy.OCIDocument{}
+	if err := json.Unmarshal([]byte(text), doc); err != nil {
+		panic(fmt.Sprintf("c05: policy text %s: %v", text, err))
+	}
+	return doc
+}
+
+// callerContext is the context handed to Verify
+func callerContext(kind string) (context.Context, context.CancelFunc) {
+	switch kind {
+	case "", "background":
+		return context.Background(), func() {}
+	case "live":
+		return context.WithTimeout(context.Background(), time.Hour)
+	case "cancelled":
+		ctx, cancel := context.WithCancel(context.Background())
+		cancel()
+		return ctx, cancel
+	case "expired":
+		ctx, cancel := context.WithDeadline(context.Background(), time.Now().Add(-time.Second))
+		<-ctx.Done()
+		return ctx, cancel
+	}
+	panic("c05: unknown caller context " + kind)
 }
 
 func newWorld() *world {
@@ -167,9 +422,9 @@ func runCase(w *world, in Input, format string) Obs {
 		scheme, storeType = common.SchemeAuthority, "signingAuthority"
 	}
 	env := w.env(n, scheme, format, in.IdentityPlugin, in.Variant)
-	results := func(c []*x509.Certificate) ([]*revresult.CertRevocationResult, error) {
+	results := func(vctx context.Context, c []*x509.Certificate) ([]*revresult.CertRevocationResult, error) {
 		if in.ValidatorError && !in.ErrorWithResults {
-			return nil, errors.New("validator failure")
+			return nil, validatorErr(in.ErrorKind, vctx)
 		}
 		out := make([]*revresult.CertRevocationResult, len(in.Vec))
 		for k := 0; k < len(in.Vec); k++ {
@@ -186,41 +441,22 @@ func runCase(w *world, in Input, format string) Obs {
 			out[k] = cr
 		}
 		if in.ValidatorError {
-			return out, errors.New("validator interrupted")
+			return out, validatorErr(in.ErrorKind, vctx)
 		}
 		return out, nil
 	}
-	key := fmt.Sprint(n, in.Scheme, in.Iface, in.Action, in.IdentityPlugin, in.DeprecatedCtor, in.Variant, in.BothSupplied)
+	rovKey := "-"
+	if in.RevOverride != nil {
+		rovKey = *in.RevOverride
+	}
+	key := fmt.Sprint(n, in.Scheme, in.Iface, in.Level, rovKey, in.OtherOverrides, in.PolicyForm, in.IdentityPlugin, in.DeprecatedCtor, in.Variant, in.BothSupplied)
 	w.uses++
 	lv := w.verifiers[key]
 	if lv == nil || w.uses%7 == 0 {
 		store := common.NewMemStore()
 		store.Certs[storeType+":c05"] = []*x509.Certificate{chain.Root().Cert}
-		rev := &common.ScriptedRevocation{}
-		var ov map[trustpolicy.ValidationType]trustpolicy.ValidationAction
-		if in.Action != "enforce" {
-			ov = map[trustpolicy.ValidationType]trustpolicy.ValidationAction{trustpolicy.TypeRevocation: trustpolicy.ValidationAction(in.Action)}
-		}
-		logOther := func(t trustpolicy.ValidationType) {
-			if ov == nil {
-				ov = map[trustpolicy.ValidationType]trustpolicy.ValidationAction{}
-			}
-			ov[t] = trustpolicy.ActionLog
-		}
-		switch in.Variant {
-		case "expiredSigLogged":
-			logOther(trustpolicy.TypeExpiry)
-		case "expiredChain":
-			if in.Scheme != "signingAuthority" {
-				logOther(trustpolicy.TypeAuthenticTimestamp)
-			}
-		}
-		doc := &trustpolicy.OCIDocument{Version: "1.0", TrustPolicies: []trustpolicy.OCITrustPolicy{{
-			Name: "c05", RegistryScopes: []string{"*"},
-			SignatureVerification: trustpolicy.SignatureVerification{VerificationLevel: "strict", Override: ov},
-			TrustStores:           []string{storeType + ":c05"},
-			TrustedIdentities:     []string{"*"},
-		}}}
+		rev := &scripted{}
+		doc := policyDoc(in, storeType)
 		opts := verifier.VerifierOptions{OCITrustPolicy: doc}
 		var mgr *common.ScriptedManager
 		if in.IdentityPlugin {
@@ -241,7 +477,7 @@ func runCase(w *world, in Input, format string) Obs {
 				opts.RevocationClient = decoy.ClientView()
 			}
 		} else {
-			opts.RevocationClient = rev.ClientView()
+			opts.RevocationClient = clientView{rev}
 		}
 		var v notation.Verifier
 		var err error
@@ -262,13 +498,23 @@ func runCase(w *world, in Input, format string) Obs {
 		}
 		lv = &liveVerifier{v: v, store: store, rev: rev}
 		w.verifiers[key] = lv
+		if w.uses%2 == 0 {
+			// history: the new verifier has already seen this very chain with a clean bill of health
+			rev.Results = func(_ context.Context, c []*x509.Certificate) ([]*revresult.CertRevocationResult, error) {
+				return common.UniformResults(revresult.ResultOK)(c)
+			}
+			v.Verify(context.Background(), target, env, notation.VerifierVerifyOptions{
+				ArtifactReference: "reg.example/c05@" + target.Digest.String(), SignatureMediaType: format})
+		}
 	}
 	rev := lv.rev
 	rev.Results = results
 	rev.Calls = nil
 	v := lv.v
-	outcome, verr := v.Verify(context.Background(), target, env, notation.VerifierVerifyOptions{
+	ctx, cancel := callerContext(in.CallerCtx)
+	outcome, verr := v.Verify(ctx, target, env, notation.VerifierVerifyOptions{
 		ArtifactReference: "reg.example/c05@" + target.Digest.String(), SignatureMediaType: format})
+	cancel()
 	o := Obs{Outcome: "notPerformed", Accepted: verr == nil, Calls: len(rev.Calls)}
 	if len(rev.Calls) > 0 {
 		c := rev.Calls[0]
@@ -300,15 +546,18 @@ func runCase(w *world, in Input, format string) Obs {
 			}
 			continue
 		}
+		ra := string(r.Action)
+		o.ResultAction = &ra
 		if r.Error == nil {
 			o.Outcome = "pass"
 			continue
 		}
 		msg := r.Error.Error()
+		const about = "signing certificate with subject "
 		switch {
-		case strings.Contains(msg, "is revoked"):
+		case strings.HasPrefix(msg, about) && strings.HasSuffix(msg, " is revoked"):
 			o.Outcome = "revoked"
-		case strings.Contains(msg, "revocation status is unknown"):
+		case strings.HasPrefix(msg, about) && strings.HasSuffix(msg, " revocation status is unknown"):
 			o.Outcome = "unknown"
 		default:
 			o.Outcome = "inconclusive"
@@ -337,11 +586,88 @@ func vectors(n int) [][]string {
 	return out
 }
 
-// Run enumerates every vector for n = 1..4 x scheme x interface x action (x validator error
-// on a sample), with random method annotations and server errors.
+func sp(s string) *string { return &s }
+
+type stmt struct {
+	level string
+	rev   *string
+}
+
+// every statement about revocation a user can write: 3 customisable levels x {no override, enforce, log, skip} + the level skip
+func statements() []stmt {
+	var out []stmt
+	for _, l := range []string{"strict", "permissive", "audit"} {
+		out = append(out, stmt{l, nil})
+		for _, a := range []string{"enforce", "log", "skip"} {
+			out = append(out, stmt{l, sp(a)})
+		}
+	}
+	return append(out, stmt{"skip", nil})
+}
+
+// overrides of other types that may stand next to the one for revocation (integrity cannot be overridden,
+// and only revocation can be skipped); `taken` types are left alone
+func otherOverrides(c *common.Ctx, level string, taken map[string]bool) []string {
+	out := []string{}
+	if level == "skip" || c.Rand.Intn(2) == 0 {
+		return out
+	}
+	for _, t := range []string{"authenticity", "authenticTimestamp", "expiry"} {
+		if taken[t] || c.Rand.Intn(2) == 0 {
+			continue
+		}
+		out = append(out, t+"="+[]string{"enforce", "log"}[c.Rand.Intn(2)])
+	}
+	return out
+}
+
+var callerCtxs = []string{"background", "live", "cancelled", "expired"}
+
+func pickCtx(c *common.Ctx) string {
+	if c.Rand.Intn(2) == 0 {
+		return "background"
+	}
+	return callerCtxs[c.Rand.Intn(len(callerCtxs))]
+}
+
+func pickForm(c *common.Ctx) string {
+	if c.Rand.Intn(3) == 0 {
+		return "json"
+	}
+	return "code"
+}
+
+// Run enumerates every vector for n = 1..4 x scheme x interface x statement about revocation (x validator
+// error on a sample), with random method annotations, server errors, error kinds, caller contexts and
+// overrides of other types.
 func Run(c *common.Ctx) error {
 	w := newWorld()
 	methods := []string{"ocsp", "crl", "fallback", "unknown"}
+	all := statements()
+	byAction := map[string][]stmt{}
+	for _, st := range all {
+		a := EffectiveAction(st.level, st.rev)
+		byAction[a] = append(byAction[a], st)
+	}
+	emit := func(in Input, format string) Obs {
+		o := runCase(w, in, format)
+		c.Emit(in, o)
+		c.Count("outcome=" + o.Outcome)
+		rov := "-"
+		if in.RevOverride != nil {
+			rov = *in.RevOverride
+		}
+		c.Count("statement=" + in.Level + "/" + rov)
+		c.Count("action=" + EffectiveAction(in.Level, in.RevOverride))
+		if in.ValidatorError && o.Calls > 0 {
+			c.Count("errorKind=" + in.ErrorKind)
+			c.Count("validatorError/ctx=" + in.CallerCtx)
+		}
+		if len(in.OtherOverrides) > 0 {
+			c.Count("with-other-overrides")
+		}
+		return o
+	}
 	reps := 1
 	if c.Thorough() {
 		reps = 6
@@ -351,14 +677,27 @@ func Run(c *common.Ctx) error {
 			for _, vec := range vectors(n) {
 				for _, scheme := range []string{"x509", "signingAuthority"} {
 					for _, iface := range []string{"validator", "client"} {
-						for _, action := range []string{"enforce", "log", "skip"} {
+						// chains up to three: every statement; chains of four: one statement (at random) per action it denotes
+						sts := all
+						if n == 4 {
+							sts = nil
+							for _, a := range []string{"enforce", "log", "skip"} {
+								sts = append(sts, byAction[a][c.Rand.Intn(len(byAction[a]))])
+							}
+						}
+						for _, st := range sts {
 							for _, verr := range []bool{false, true} {
 								if verr && c.Rand.Intn(4) != 0 {
 									continue
 								}
-								in := Input{Vec: vec, ChainLen: n, Scheme: scheme, Iface: iface, Action: action, ValidatorError: verr,
+								in := Input{Vec: vec, ChainLen: n, Scheme: scheme, Iface: iface, Level: st.level, RevOverride: st.rev,
+									OtherOverrides: otherOverrides(c, st.level, nil), PolicyForm: pickForm(c), ValidatorError: verr,
+									CallerCtx:        pickCtx(c),
 									ErrorWithResults: verr && c.Rand.Intn(2) == 0, DeprecatedCtor: c.Rand.Intn(3) == 0,
 									IdentityPlugin: c.Rand.Intn(4) == 0}
+								if verr {
+									in.ErrorKind = ErrorKinds[c.Rand.Intn(len(ErrorKinds))]
+								}
 								in.BothSupplied = iface == "validator" && c.Rand.Intn(3) == 0
 								for k := 0; k < n; k++ {
 									in.Methods = append(in.Methods, methods[c.Rand.Intn(len(methods))])
@@ -368,13 +707,40 @@ func Run(c *common.Ctx) error {
 								if c.Rand.Intn(3) == 0 {
 									format = common.MediaCOSE
 								}
-								o := runCase(w, in, format)
-								c.Emit(in, o)
-								c.Count("outcome=" + o.Outcome)
+								emit(in, format)
 								c.Count(fmt.Sprintf("n=%d", n))
-								c.Count("action=" + action)
 							}
 						}
+					}
+				}
+			}
+		}
+	}
+	// validator-level errors: every kind x every caller context x both interfaces x statements that log and
+	// enforce (by the level itself, by a relaxing and by a tightening override) x with / without accompanying results
+	errStmts := []stmt{{"strict", nil}, {"strict", sp("log")}, {"permissive", nil}, {"permissive", sp("enforce")}, {"audit", sp("enforce")}, {"audit", nil}}
+	for _, kind := range ErrorKinds {
+		for _, cctx := range callerCtxs {
+			for _, iface := range []string{"validator", "client"} {
+				for _, st := range errStmts {
+					for _, ewr := range []bool{false, true} {
+						n := 1 + c.Rand.Intn(3)
+						in := Input{ChainLen: n, Scheme: []string{"x509", "signingAuthority"}[c.Rand.Intn(2)], Iface: iface,
+							Level: st.level, RevOverride: st.rev, OtherOverrides: otherOverrides(c, st.level, nil), PolicyForm: pickForm(c),
+							ValidatorError: true, ErrorKind: kind, CallerCtx: cctx, ErrorWithResults: ewr,
+							DeprecatedCtor: c.Rand.Intn(4) == 0, Vec: []string{}}
+						for k := 0; k < n; k++ {
+							// the accompanying results are mostly good: only the error stands between the chain and a pass
+							r := "ok"
+							if c.Rand.Intn(4) == 0 {
+								r = []string{"nonRevokable", "unknown", "revoked"}[c.Rand.Intn(3)]
+							}
+							in.Vec = append(in.Vec, r)
+							in.Methods = append(in.Methods, methods[c.Rand.Intn(len(methods))])
+							in.ServerErrors = append(in.ServerErrors, false)
+						}
+						emit(in, common.MediaJWS)
+						c.Count("error-kind-block")
 					}
 				}
 			}
@@ -394,16 +760,35 @@ func Run(c *common.Ctx) error {
 							if n == 3 && c.Rand.Intn(3) != 0 {
 								continue
 							}
-							in := Input{Vec: vec, ChainLen: n, Scheme: scheme, Iface: iface, Action: action, Variant: variant,
-								ValidatorError: c.Rand.Intn(8) == 0}
+							// a statement (not the level skip: that one verifies nothing at all) denoting the action
+							var st stmt
+							for {
+								st = byAction[action][c.Rand.Intn(len(byAction[action]))]
+								if st.level != "skip" {
+									break
+								}
+							}
+							// the failure the variant is built for must be logged, not enforced
+							taken := map[string]bool{}
+							forced := []string{}
+							switch {
+							case variant == "expiredSigLogged":
+								taken["expiry"], forced = true, []string{"expiry=log"}
+							case variant == "expiredChain" && scheme != "signingAuthority":
+								taken["authenticTimestamp"], forced = true, []string{"authenticTimestamp=log"}
+							}
+							in := Input{Vec: vec, ChainLen: n, Scheme: scheme, Iface: iface, Level: st.level, RevOverride: st.rev, Variant: variant,
+								OtherOverrides: append(forced, otherOverrides(c, st.level, taken)...), PolicyForm: pickForm(c),
+								CallerCtx: pickCtx(c), ValidatorError: c.Rand.Intn(8) == 0}
+							if in.ValidatorError {
+								in.ErrorKind = ErrorKinds[c.Rand.Intn(len(ErrorKinds))]
+							}
 							for k := 0; k < n; k++ {
 								in.Methods = append(in.Methods, methods[c.Rand.Intn(len(methods))])
 								in.ServerErrors = append(in.ServerErrors, c.Rand.Intn(4) == 0)
 							}
-							o := runCase(w, in, common.MediaJWS)
-							c.Emit(in, o)
+							emit(in, common.MediaJWS)
 							c.Count("variant=" + variant)
-							c.Count("outcome=" + o.Outcome)
 						}
 					}
 				}
@@ -422,7 +807,9 @@ func Run(c *common.Ctx) error {
 				}
 				for _, iface := range []string{"validator", "client"} {
 					for _, action := range []string{"enforce", "log"} {
-						in := Input{Vec: vec, ChainLen: n, Scheme: "x509", Iface: iface, Action: action}
+						st := byAction[action][c.Rand.Intn(len(byAction[action]))]
+						in := Input{Vec: vec, ChainLen: n, Scheme: "x509", Iface: iface, Level: st.level, RevOverride: st.rev,
+							OtherOverrides: []string{}, PolicyForm: "code", CallerCtx: "background"}
 						if in.Vec == nil {
 							in.Vec = []string{}
 						}
@@ -431,16 +818,14 @@ func Run(c *common.Ctx) error {
 							in.Methods = append(in.Methods, "ocsp")
 							in.ServerErrors = append(in.ServerErrors, false)
 						}
-						o := runCase(w, in, common.MediaJWS)
-						c.Emit(in, o)
+						emit(in, common.MediaJWS)
 						c.Count("result-count-mismatch")
-						c.Count("outcome=" + o.Outcome)
 					}
 				}
 			}
 		}
 	}
 	c.SetExhaustive(true)
-	c.Note("all 340 result vectors over chains of length 1..4 x {x509, signingAuthority} x {validator, deprecated client} x {enforce, log, skip}; validator-level error on a quarter; random method annotations and per-server errors; real JWS/COSE envelopes through verifier.Verify")
+	c.Note("all 340 result vectors over chains of length 1..4 x {x509, signingAuthority} x {validator, deprecated client} x the statements about revocation a user can write (strict / permissive / audit x {no override, enforce, log, skip}, and the level skip: all 13 for chains up to three, one per denoted action for chains of four), next to random overrides of other types, policy built in code or parsed from JSON text; validator-level error on a quarter, and a block of every error kind (%d: plain, empty message, typed nil pointer, context.Canceled / DeadlineExceeded bare, wrapped, joined, from the validator's own timeout / cancellation, url.Error, net timeouts, os.ErrDeadlineExceeded, typed OCSP / chain errors) x caller context {background, live deadline, cancelled, expired} x both interfaces x logging and enforcing statements; random method annotations and per-server errors; half of the fresh verifiers primed with an all-OK answer for the same chain; real JWS/COSE envelopes through verifier.Verify", len(ErrorKinds))
 	return nil
 }
